@@ -569,10 +569,12 @@ class Dataset:
         if not isinstance(other, Dataset):
             return NotImplemented
 
-        self_str_rankings: List[str] = [str(ranking).strip().replace(" ", "") for ranking in self.rankings]
-        other_str_rankings: List[str] = [str(ranking).strip().replace(" ", "") for ranking in other.rankings]
+        # a ranking is compared as the sequence of its buckets, each bucket as a set: the order in which the
+        # members of a bucket are iterated (or printed) must not matter
+        self_rankings: Counter = Counter(tuple(frozenset(bucket) for bucket in ranking) for ranking in self.rankings)
+        other_rankings: Counter = Counter(tuple(frozenset(bucket) for bucket in ranking) for ranking in other.rankings)
 
-        return Counter(self_str_rankings) == Counter(other_str_rankings)
+        return self_rankings == other_rankings
 
 
 class DatasetSelector:
